@@ -130,7 +130,7 @@ impl Prop for C02 {
             }
         }
         // E: certificates x checking
-        for cert in [Cert::A, Cert::B, Cert::M] {
+        for cert in [Cert::A, Cert::B, Cert::M, Cert::ChainTrusted, Cert::Expired, Cert::NotYetValid, Cert::ChainUntrusted, Cert::Forged, Cert::TamperedA] {
             for check in [false, true] {
                 for use_nla in [true, false] {
                     cs.push(Case { cert, check_certificate: check, use_nla, selected: if use_nla { 2 } else { 1 }, block: "certificate", ..base.clone() });
@@ -161,7 +161,7 @@ impl Prop for C02 {
         json!({"idx": idx, "case": self.cases[idx as usize]})
     }
     fn rule(&self) -> String {
-        "cases = (connector configuration | offered mask, server certificate, connection-confirm contents). [selected-value] all 256 low-byte values, every single bit 2^8..2^31 and mixed patterns x NLA on/off x certificate checking on/off; [reply-kind] failure / echoed request / absent / every other type byte x 6 values; [flags] every flag byte x valid and invalid selection; [length-field]; [offered-mask] x224::Client::connect with masks {0,1,2,3,8,0xB} x 10 selections x 3 kinds; [certificate] trusted RSA, trusted EC and untrusted certificate x checking x NLA. Executed through the real Connector::connect over real TLS. Non-trivial: the reply is not the honest one for the configuration.".into()
+        "cases = (connector configuration | offered mask, server certificate, connection-confirm contents). [selected-value] all 256 low-byte values, every single bit 2^8..2^31 and mixed patterns x NLA on/off x certificate checking on/off; [reply-kind] failure / echoed request / absent / every other type byte x 6 values; [flags] every flag byte x valid and invalid selection; [length-field]; [offered-mask] x224::Client::connect with masks {0,1,2,3,8,0xB} x 10 selections x 3 kinds; [certificate] trusted RSA, trusted EC, a leaf of a trusted root; and six kinds of untrusted certificate: unknown self-signed, trusted-but-expired, trusted-but-not-yet-valid, leaf of an unknown root, leaf naming the trusted root but signed by another key, trusted certificate with a flipped signature bit; x checking x NLA. Executed through the real Connector::connect over real TLS. Non-trivial: the reply is not the honest one for the configuration.".into()
     }
     fn assumptions(&self) -> Vec<String> {
         vec![
@@ -253,7 +253,7 @@ impl Prop for C02 {
         if let Err(e) = only_tls_records(&pr.raw_after_cc) {
             return Outcome::fail("mismatch", "non-tls-bytes-after-confirm", e);
         }
-        let untrusted = c.cert == Cert::M;
+        let untrusted = !c.cert.trusted();
         if c.check_certificate && untrusted {
             if ok {
                 return Outcome::fail("mismatch", "untrusted-certificate-accepted", "connect succeeded with certificate checking on and an untrusted certificate".to_string());
